@@ -225,6 +225,18 @@ def calls(run, P, rule):
                     owner = var
             arg = c.args[0] if c.args else None
             ok = owner is not None and dotted(arg) == f"{owner}.statements"
+            if not ok and owner is None and dotted(arg) == f"{code}.phases":
+                # the pass is handed the phase map and walks it itself
+                callee = P.module(MOD).functions.get(name)
+                inner = _loop_over_phases(callee.node, callee.arg(0)) if callee is not None else []
+                uses = [(lp, v) for lp, v in inner if any(
+                    isinstance(x, ast.Attribute) and dotted(x.value) == v
+                    for b in lp.body for x in ast.walk(b))]
+                if len(inner) == 1 and uses:
+                    run.ob(rule, f, c, True,
+                           construct=f"{norm(c)}: the pass walks every phase of the map itself",
+                           why="each phase is checked")
+                    continue
             run.ob(rule, f, c, ok,
                    construct=f"{norm(c)} inside 'for {owner} in {code}.phases.values()'"
                    if owner else f"{norm(c)} outside any loop over the phases",
@@ -371,10 +383,30 @@ def _cycle(run, P):
     f = P.func(f"{MOD}.verify_no_circular_dependencies")
     stmts_param, errs = f.params[0], f.params[1]
     loop = [n for n in f.node.body if isinstance(n, ast.While) and isinstance(n.test, ast.Name)]
+    per_phase = None
+    if not loop:
+        # the pass may be handed the phase map and walk it itself
+        outer = _loop_over_phases(f.node, stmts_param)
+        if len(outer) == 1:
+            per_phase = outer[0]
+            loop = [n for n in per_phase[0].body if isinstance(n, ast.While)
+                    and isinstance(n.test, ast.Name)]
+            stmts_param = f"{per_phase[1]}.statements"
     if len(loop) != 1:
         raise AnalysisError("verify_no_circular_dependencies: main loop not found")
     lp = loop[0]
     stack = lp.test.id
+    if per_phase is not None:
+        sets_ = {t.id for s_ in ast.walk(lp) for n_, b_ in find("V_set.add(ANY)", s_)
+                 for t in [ast.Name(id=b_["V_set"])]}
+        inside = {t.id for s_ in per_phase[0].body if isinstance(s_, ast.Assign)
+                  for t in s_.targets if isinstance(t, ast.Name)}
+        stale = sorted(sets_ - inside)
+        run.ob("C10.cycle", f, per_phase[0], not stale,
+               construct="the marks of the search are started afresh for every phase"
+                         + (f" (kept across phases: {stale})" if stale else ""),
+               why="statement ids repeat from phase to phase: a mark left by an earlier phase "
+                   "hides the statement of the same id, and a cycle through it, in a later one")
     init = [s_ for s_ in func_body_stmts(f.node) if isinstance(s_, ast.Assign)
             and any(isinstance(t, ast.Name) and t.id == stack for t in s_.targets)]
     ok = len(init) == 1 and isinstance(init[0].value, ast.Call) \
